@@ -25,6 +25,7 @@ type World struct {
 	funcs map[string]*ssa.Function // by contract key
 	repoP map[string]bool
 	mutatedGlobals map[string]bool
+	allFuncs map[string]*ssa.Function
 }
 
 func loadWorld(repo, specDir string) (*World, error) {
@@ -54,7 +55,9 @@ func loadWorld(repo, specDir string) (*World, error) {
 		w.repoP[p.PkgPath] = true
 	}
 	w.mutatedGlobals = map[string]bool{}
+	w.allFuncs = map[string]*ssa.Function{}
 	for fn := range ssautil.AllFunctions(prog) {
+		w.allFuncs[fn.String()] = fn
 		if fn.Name() != "init" || fn.Parent() != nil {
 			for _, b := range fn.Blocks {
 				for _, in := range b.Instrs {
@@ -98,6 +101,7 @@ func loadWorld(repo, specDir string) (*World, error) {
 func (w *World) newExec() *Exec {
 	x := NewExec(w.prog, w.db, w.prog.Fset)
 	x.repoPkgs = w.repoP
+	x.allFuncs = w.allFuncs
 	x.globals = map[string]func(*State) *Value{}
 	for name, val := range w.db.Globals {
 		name, val := name, val
